@@ -54,6 +54,9 @@ pub struct ClientSpec {
     pub rst: bool,
     pub drop_ctx: bool,
     pub start_delay_ms: u8,
+    /// upper bound (ms) of the handler's own wait when nobody releases it; 0 = MAX_HOLD_MS
+    #[serde(default)]
+    pub hold_ms: u32,
 }
 
 #[derive(Clone, Debug, Serialize, Deserialize)]
@@ -107,7 +110,7 @@ fn client_spec() -> impl Strategy<Value = ClientSpec> {
             if kind == Kind::Big || kind == Kind::Panic {
                 proto = Proto::H1;
             }
-            ClientSpec { kind, proto, point, rst, drop_ctx: drop_ctx && kind == Kind::Hold, start_delay_ms }
+            ClientSpec { kind, proto, point, rst, drop_ctx: drop_ctx && kind == Kind::Hold, start_delay_ms, hold_ms: 0 }
         })
 }
 
@@ -129,7 +132,7 @@ pub fn request_for(c: &ClientSpec, id: u64) -> (Vec<u8>, usize) {
     // returns (bytes, length of the head)
     match c.kind {
         Kind::Hold => {
-            let r = http1::build_request("GET", &format!("/hold?id={}&max_ms={}&drop_ctx={}", id, MAX_HOLD_MS, c.drop_ctx), &[], None);
+            let r = http1::build_request("GET", &format!("/hold?id={}&max_ms={}&drop_ctx={}", id, if c.hold_ms > 0 { c.hold_ms as u64 } else { MAX_HOLD_MS }, c.drop_ctx), &[], None);
             let n = r.len();
             (r, n)
         }
@@ -247,7 +250,7 @@ pub async fn run_h2(addr: std::net::SocketAddr, log: Arc<EventLog>, c: ClientSpe
     let conn_task = tokio::spawn(async move {
         let _ = conn.await;
     });
-    let uri = format!("http://{}/hold?id={}&max_ms={}&drop_ctx={}", addr, id, MAX_HOLD_MS, c.drop_ctx);
+    let uri = format!("http://{}/hold?id={}&max_ms={}&drop_ctx={}", addr, id, if c.hold_ms > 0 { c.hold_ms as u64 } else { MAX_HOLD_MS }, c.drop_ctx);
     let req = hyper::Request::builder().method("GET").uri(uri).body(http_body_util::Empty::<bytes::Bytes>::new()).unwrap();
     let fut = sender.send_request(req);
     match c.point {
